@@ -28,7 +28,7 @@ def f64_bits(x):
     return "d%016x" % struct.unpack("<Q", struct.pack("<d", x))[0]
 
 
-NUM_POOL = ["u0", "u1", "u2", "u3", "u10", "i-1", "i-2", "u42", "u9007199254740993", "u18446744073709551615",
+NUM_POOL = ["u0", "u1", "u2", "u3", "u10", "i-1", "i-2", "u42", "u9007199254740993", "u18446744073709551615", "u9223372036854775808", "u9223372036854775809", "u18446744073709551614", "u9223372036854775807",
             "i-9223372036854775808", f64_bits(1.5), f64_bits(-0.5), f64_bits(1.0), f64_bits(2.0), f64_bits(0.1),
             f64_bits(1e308), f64_bits(1.7e308), f64_bits(5e-324), f64_bits(-0.0), f64_bits(0.7100000000000002), f64_bits(0.71)]
 STR_POOL = ["", "a", "b", "foo", "bar", "é", "😀x", "a b", "10", "1.5", "true", "[1]", "abc", "ab", "zzz", "A", " ", "\t\n", "\u00a0", "a\"b\\c", "{}", "null", "0", "false"]
@@ -470,6 +470,17 @@ def path_expr(rng, doc, wrap=True):
 
 def near_pair(rng, depth=3):
     """two typed values that are equal, differ in exactly one token (a number, a string, or a member NAME), or are unrelated"""
+    if rng.random() < 0.12:
+        # numbers that are neighbours, or far apart, inside one representation class (integers above i64::MAX, doubles near 2^53, …)
+        grp = rng.choice([["u9223372036854775808", "u9223372036854777856", "u10000000000000000000", "u12000000000000000000", "u18446744073709551615",
+                           "u9223372036854775807", "u9223372036854775809"],
+                          ["u9007199254740992", "u9007199254740993", "u9007199254740994", f64_bits(9007199254740992.0), f64_bits(9007199254740994.0)],
+                          ["i-9223372036854775808", "i-9223372036854775807", "i-9223372036854774784", f64_bits(-9.223372036854775808e18)],
+                          [f64_bits(0.1 + 0.2), f64_bits(0.3), f64_bits(0.30000000000000010), "u0", f64_bits(5e-324), f64_bits(-0.0)],
+                          ["u4294967296", "u4294967295", "u2147483648", "u2147483647", f64_bits(4294967296.0), "i-2147483649", "i-2147483648"]])
+        x, y = rng.choice(grp), rng.choice(grp)
+        w = rng.choice(["%s", "[ %s ]", "{ s61 %s }", "[ u1 %s ]"])
+        return w % x, w % y
     a = rand_doc(rng, depth)
     r = rng.random()
     if r < 0.3:
@@ -497,3 +508,36 @@ def near_pair(rng, depth=3):
 CMP_EXPRS = ["[0] == [1]", "[0] != [1]", "@[0] == @[1] || `\"ne\"`", "[?@ == `1`]", "[[0] == [1], [1] == [0], [0] != [1]]",
              "[0] < [1]", "[0] >= [1]", "[?[0] == [1]]", "[*] | [0] == [1]", "{e: [0] == [1], n: [0] != [1]}", "!([0] == [1])",
              "([0] == [1]) && `true`", "[0].a == [1].a", "[0][0] == [1][0]", "[0].* == [1].*", "[0][] == [1][]"]
+
+
+# ----------------------------------------------------------------------------- postfix chains over table-shaped data
+
+def table_doc(rng, depth=3):
+    """arrays of objects over the keys a, b, c whose members are numbers, strings or again such arrays: every postfix chain below selects something"""
+    def obj(d):
+        o = {}
+        for k in ("a", "b", "c"):
+            r = rng.random()
+            if r < 0.15:
+                continue
+            if d > 0 and r < 0.55:
+                o[k] = arr(d - 1)
+            elif r < 0.8:
+                o[k] = rng.choice([0, 1, 2, 3])
+            elif r < 0.9:
+                o[k] = rng.choice(["a", "", "x"])
+            else:
+                o[k] = rng.choice([None, True, False, [], {}])
+        return o
+
+    def arr(d):
+        return [obj(d) if rng.random() < 0.85 else rng.choice([1, None, [obj(0)], "s"]) for _ in range(rng.randrange(1, 4))]
+    return {"a": arr(depth), "b": arr(depth - 1), "c": rng.choice([1, arr(1)])}
+
+
+POSTFIXES = [".a", ".b", ".c", "[0]", "[-1]", "[*]", "[]", "[?a]", "[?b]", "[?c > `0`]", "[?@]", "[1:]", "[::2]", "[::-1]", ".*", ".[a, b]", ".{x: a, y: b}",
+             " | [0]", " | a", " || `1`", " && b", " == `1`", ".length(@)", ".keys(@)"]
+
+
+def postfix_chain(rng, nmax=5):
+    return rng.choice(["a", "b", "@.a", "*", "a[0]"]) + "".join(rng.choice(POSTFIXES) for _ in range(rng.randrange(2, nmax + 1)))
